@@ -14,6 +14,8 @@ Definition byte_of_Z (z : Z) : byte :=
 Definition xbyte_of_N (x : N) : byte :=
   match Byte.of_N x with Some b => b | None => x00 end.
 Definition xN_of_byte (b : byte) : N := Byte.to_N b.
+(* forces nat, positive, N and Z into every extraction, as extract/util.ml expects them *)
+Definition xanchor (z : Z) (n : N) (k : nat) : Z := z + Z.of_N n + Z.of_nat k.
 
 Lemma Z_of_byte_range b : 0 <= Z_of_byte b < 256.
 Proof.
